@@ -52,8 +52,18 @@ fn runtime_query<D: Store>(d: &mut D, addr: usize, key: Result<usize, garnish_la
     out
 }
 
-fn list_on<D: Store>(f: &[&str], copy: bool) -> String {
+fn list_on_after<D: Store>(f: &[&str]) -> String {
     let mut d = D::create(None);
+    crate::store::abandon_constructions(&mut d);
+    list_in::<D>(f, false, d)
+}
+
+fn list_on<D: Store>(f: &[&str], copy: bool) -> String {
+    let d = D::create(None);
+    list_in::<D>(f, copy, d)
+}
+
+fn list_in<D: Store>(f: &[&str], copy: bool, mut d: D) -> String {
     let term = match parse_term(f[3]) {
         Ok(t) => t,
         Err(e) => return format!("BAD-CASE {}", e),
@@ -147,6 +157,9 @@ pub fn list_case(f: &[&str]) -> String {
         // `garnish_lang_traits::helpers::clone_data`, and the COPY is queried
         "simplecopy" => list_on::<SimpleStore>(f, true),
         "basiccopy" => list_on::<BasicStore>(f, true),
+        // the value is built AFTER constructions that were started and never ended on the same object
+        "simpleabandon" => list_on_after::<SimpleStore>(f),
+        "basicabandon" => list_on_after::<BasicStore>(f),
         s => format!("BAD-CASE store {}", s),
     }
 }
